@@ -80,4 +80,72 @@ example : (exec demo [0, 1, 0, 1, 1] ⟨10, fun _ => 0, fun _ => none⟩).core 1
     = (exec demo [1, 1, 1, 0, 0] ⟨10, fun _ => 0, fun _ => none⟩).core 1 := by decide
 example : (exec demo [0, 1, 0] ⟨10, fun _ => 0, fun _ => none⟩).store 0 = some 12 := by decide
 
+/-! ### event level: any assignment of events to streams -/
+section Events
+variable {C V R : Type}
+
+/-- an event's result is the reference result whatever stream runs it and whatever that stream
+    did before -/
+theorem event_result_is_reference (ev : EvSem P C V R) (h : ev.Isolated) (p : P)
+    (comp : Nat → C) (a : Nat × Nat) (c0 : C) :
+    (evStep ev p comp a).2 = evRef ev p c0 a.2 := by
+  unfold evStep evRef
+  apply h.run_view
+  rw [h.begin_view, h.begin_view]
+
+/-- ★ for ANY assignment of events to streams, any number of streams, any per-stream order and
+    any state the streams start in, the per-event results are those of each event run alone on
+    a single stream from `c0` -/
+theorem any_assignment_gives_reference_results (ev : EvSem P C V R) (h : ev.Isolated) (p : P)
+    (asg : List (Nat × Nat)) (comp : Nat → C) (c0 : C) :
+    evExec ev p asg comp = asg.map (fun a => (a.2, evRef ev p c0 a.2)) := by
+  induction asg generalizing comp with
+  | nil => rfl
+  | cons a l ih =>
+    rw [evExec, List.map_cons, ih, event_result_is_reference ev h p comp a c0]
+
+/-- ★ two assignments of the same events (as a permutation: different streams, different
+    order, different starting states) give the same per-event results up to that permutation;
+    in particular k concurrent streams against one stream running the events one after another -/
+theorem assignments_agree (ev : EvSem P C V R) (h : ev.Isolated) (p : P)
+    (asg₁ asg₂ : List (Nat × Nat)) (comp₁ comp₂ : Nat → C)
+    (hev : (asg₁.map Prod.snd).Perm (asg₂.map Prod.snd)) :
+    (evExec ev p asg₁ comp₁).Perm (evExec ev p asg₂ comp₂) := by
+  rw [any_assignment_gives_reference_results ev h p asg₁ comp₁ (comp₁ 0),
+    any_assignment_gives_reference_results ev h p asg₂ comp₂ (comp₁ 0)]
+  have := hev.map (fun e => (e, evRef ev p (comp₁ 0) e))
+  simpa [List.map_map, Function.comp_def] using this
+
+/-- serial special case, as an equation: all events on stream 0 in the same order -/
+theorem concurrent_equals_single_stream (ev : EvSem P C V R) (h : ev.Isolated) (p : P)
+    (asg : List (Nat × Nat)) (comp comp' : Nat → C) :
+    evExec ev p asg comp = evExec ev p (asg.map (fun a => (0, a.2))) comp' := by
+  rw [any_assignment_gives_reference_results ev h p asg comp (comp 0),
+    any_assignment_gives_reference_results ev h p _ comp' (comp 0)]
+  simp [List.map_map, Function.comp_def]
+
+/-- the contract is necessary: a boundary that leaves one viewed datum of the previous event in
+    place makes the result depend on the assignment (the kind of change the seeded C07 patches
+    make: a counter or RNG slot not reset at the event boundary) -/
+def leaky : EvSem Nat (Nat × Nat) (Nat × Nat) Nat :=
+  ⟨fun p _ e c => (p + e, c.2), fun _ _ c => (c.1 + c.2, (c.1, c.2 + 1)), id, fun p e => (p + e, 0)⟩
+
+theorem leaky_depends_on_assignment :
+    evExec leaky 5 [(0, 1), (0, 2)] (fun _ => (0, 0)) ≠ evExec leaky 5 [(0, 1), (1, 2)] (fun _ => (0, 0)) := by
+  decide
+
+/-! non-vacuity: an RNG word reseeded from (seed, event), a tally that carries over -/
+def demoEv : EvSem Nat (Nat × Nat) Nat Nat :=
+  ⟨fun p _ e c => (p + e, c.2), fun _ _ c => (2 * c.1, (c.1 + 1, c.2 + 2 * c.1)), Prod.fst, fun p e => p + e⟩
+
+theorem demoEv_isolated : demoEv.Isolated :=
+  ⟨fun _ _ _ _ => rfl, fun _ _ _ c c' hv => by simp only [demoEv] at hv ⊢; rw [hv]⟩
+
+example : evExec demoEv 7 [(0, 1), (1, 2), (0, 3)] (fun _ => (99, 0))
+    = evExec demoEv 7 [(2, 1), (2, 2), (2, 3)] (fun _ => (0, 5)) := by decide
+example : evExec demoEv 7 [(0, 1), (1, 2), (0, 3)] (fun _ => (99, 0)) = [(1, 16), (2, 18), (3, 20)] := by
+  decide
+
+end Events
+
 end CelerVerif.Streams
